@@ -1277,11 +1277,25 @@ class Exec:
 
     def ev_YieldFrom(self, n, st):
         out = []
+        if isinstance(n.value, ast.Call):
+            # `yield from helper(…)` with a generator visible here: its yields happen in place
+            self._gen_ok = True
+            try:
+                res = self.ev(n.value, st)
+            finally:
+                self._gen_ok = False
+            if all(not (v[0] == 'call' and v[2][0] in ('func', 'method')) for _x, v in res):
+                return [(x, ('unknown', new_uid())) for x, v in res]
+            return [(x, ('unknown', new_uid())) if x.status != 'run' else self._yield_star(x, v, n) for x, v in res]
         for x, v in self.ev(n.value, st):
             if x.status == 'run':
                 x.emit('yield', ('star', v), node=n)
             out.append((x, ('unknown', new_uid())))
         return out
+
+    def _yield_star(self, x, v, n):
+        x.emit('yield', ('star', v), node=n)
+        return (x, ('unknown', new_uid()))
 
     def ev_Lambda(self, n, st):
         a = n.args
@@ -1403,15 +1417,24 @@ class Exec:
             return node, cls, f[2], None
         if f[0] == 'method' and self.mod.inline_methods:
             node, cls, _ = FUNCS[f[1]]
+            decos = [d.id for d in node.decorator_list if isinstance(d, ast.Name)]
+            if 'staticmethod' in decos:
+                return node, cls, self.mod.fid, None
+            if 'classmethod' in decos:
+                return node, cls, self.mod.fid, ('class', cls)
             return node, cls, self.mod.fid, ('self',)
         return None
 
     def inline(self, target, f, args, kws, st, callnode):
         node, cls, lex, selfsym = target
-        if node.decorator_list and not all(isinstance(d, ast.Name) and d.id in ('staticmethod',) for d in node.decorator_list):
+        if node.decorator_list and not all(isinstance(d, ast.Name) and d.id in ('staticmethod', 'classmethod') for d in node.decorator_list):
             return None
-        if is_generator(node) or node.name in self.mod.no_inline:
+        if node.name in self.mod.no_inline:
             return None
+        if is_generator(node):
+            if not getattr(self, '_gen_ok', False):
+                return None
+        self._gen_ok = False
         if st.depth >= MAX_DEPTH or id(node) in st.inlining:
             return None
         a = node.args
